@@ -92,6 +92,13 @@ func (w *World) checkIterator(where, impl string, it corestore.Iterator, start, 
 	if it.Valid() {
 		return bad("not-terminated", "Valid() after second Close")
 	}
+	// a closed iterator still answers what it was created for (seed C08-4B)
+	if ds, de := it.Domain(); !sameBound(ds, start) || !sameBound(de, end) {
+		return bad("wrong-domain", fmt.Sprintf("Domain()=(%x,%x) after Close", ds, de))
+	}
+	if err := it.Error(); err != nil {
+		return bad("error-on-legal-request", fmt.Sprintf("Error()=%v after Close", err))
+	}
 	return nil
 }
 
